@@ -43,8 +43,8 @@ def run(ctx):
         "the emitted-text reader must accept the text (statement forms, balanced parentheses, final return) and the EmitC state machine "
         "checks declared-once / declared-before-use / valid identifiers / known callees; hi and pkt are in scope only if the needs-hi / "
         "needs-pkt flag is set (sub-routine bodies: only if the prologue declares them); getter names of all bundled instructions via Meta.tla",
-        select=lambda v: not v.startswith("own:"), extra=getters,
-        gen=(("Gen_C02.tla", 8), ("Gen_C05.tla", 2), ("Gen_C10.tla", 2), ("Gen_C07.tla", 1)))
+        select=lambda v: not v.startswith("own"), extra=getters,
+        gen=(("Gen_C02.tla", 8), ("Gen_C05.tla", 2), ("Gen_C10.tla", 2), ("Gen_C07.tla", 1), ("Gen_C06.tla", 1)))
 
 
 if __name__ == "__main__":
